@@ -21,9 +21,9 @@ def _conds(tier):
                               {"VF_OP": op, "VF_MAXS": 2, "VF_NL": 3, "VF_NT": 3}, to))
             conds.append(Cond(f"one-step/{op}/types=2/listeners=4/subs<=2", "c08", "h_step",
                               {"VF_OP": op, "VF_MAXS": 2, "VF_NL": 4, "VF_NT": 2}, to))
-    for single in (0, 1):
+    for single in (0, 1, 2):
         for timed in (0, 1):
-            conds.append(Cond(f"payload/metadata={'a:int' if single else 'a:int,b:str'}/{'timed' if timed else 'plain'}",
+            conds.append(Cond(f"payload/metadata={['a:int,b:str', 'a:int', 'empty-dict'][single]}/{'timed' if timed else 'plain'}",
                               "c08", "h_payload", {"VF_SINGLE": single, "VF_TIMED": timed}, to))
     conds.append(Cond("payload/non-dict", "c08", "h_nondict", {}, to))
     conds.append(Cond("payload/timestamp", "c08", "h_timestamp", {}, to))
